@@ -1911,10 +1911,11 @@ COMPONENTS = {
              'matplotlib (patches, lines, text)', 'kernel tmpfs'],
     'modelled_at_seam': ['warnings filter', 'ambient locale encoding'],
     'stub': ['FaultyWCS: a real astropy WCS (subclass instance) whose n-th '
-             'transformation call raises NoConvergence/ValueError'],
+             'transformation call (1st-14th) raises NoConvergence/ValueError '
+             'or answers NaN'],
 }
 RULE = ('seeded histories of 3-30 public read-only/constructive calls over a '
-        'pool of ~45 objects (+ up to 14 derived results); per run a random '
+        'pool of ~90 objects (+ up to 14 derived results); per run a random '
         'subset of op kinds and fault kinds is enabled and the fault rate is '
         'drawn from {0, .15, .3, .45}. A state is (op kind, receiver class, '
         'fault kind, outcome class) or an ordered pair of consecutive op '
